@@ -157,6 +157,18 @@ Theorem C10_source_skeleton :
 Proof. exact (@skel_roc). Qed.
 Print Assumptions C10_source_skeleton.
 
+(* TRANSLATOR TIE: the flag-assignment skeleton generated from the CURRENT source of argo.speed_test (Generated.skel_speed_test: masks, comparison operators, flag constants, order, the size guards and early return), run in the model's environment for EVERY geodesic function, yields exactly the model's flags *)
+Theorem C10_source_skeleton_speed :
+  forall (geod : Q -> Q -> Q -> Q -> Q) (st ft : Q) (lon lat : list obs) (ts : list Z),
+         length lon = length lat ->
+         length lon = length ts ->
+         lon <> [] ->
+         speed_model geod st ft lon lat ts =
+         Flags
+           (run_steps (env_speed geod st ft lon lat ts) skel_speed_test (all_flags (length lon) GOOD)).
+Proof. exact (@skel_speed). Qed.
+Print Assumptions C10_source_skeleton_speed.
+
 Theorem C10_assign_order :
   assign_order_rate_of_change_test = [SUSPECT; MISSING] /\ assign_order_speed_test = [MISSING; UNKNOWN; SUSPECT; FAIL; UNKNOWN; MISSING].
 Proof. split; reflexivity. Qed.
